@@ -243,6 +243,24 @@ func Discharge(results []*FuncResult, timeoutMs int, seed int, all bool, keepQue
 					o.CandQuery, o.CandSolver = lq, lr.solver
 				}
 			}
+			if !done && !o.ExpectSat && o.CandQuery == "" {
+				// stage 1b: abstract arithmetic (division/remainder by a symbolic divisor as an
+				// uninterpreted function with bound facts): a sound weakening, "unsat" is a proof
+				base := lq
+				if base == "" {
+					base = q
+				}
+				if aq, ok := abstractArith(base); ok {
+					ar, _ := race(aq, dir, j.id+3000000, min(t, 15000), seed, false)
+					mu.Lock()
+					solverSeconds += float64(ar.ms) / 1000
+					mu.Unlock()
+					if ar.status == "unsat" {
+						r, done = ar, true
+						r.solver += "+absarith"
+					}
+				}
+			}
 			if !done && lq != "" && o.CandQuery == "" && t > 5000 {
 				// stage 2: the full query and the weakened one side by side; "unsat" from
 				// either is a proof, "sat" only counts from the full query
